@@ -142,9 +142,16 @@ def _pairs(rng):
     return [[rng.choice(names).hex(), bs().hex()] for _ in range(rng.randint(0, 5))]
 
 
-def _encode_qs(pairs):
+def _encode_qs(pairs, raw=None):
+    """strict form-encoding; with `raw` (a random.Random) bytes other than & = + % and space may be left unescaped
+    (a latin-1 query string as a lenient client would send it)"""
     from urllib.parse import quote_plus
-    return "&".join(quote_plus(bytes.fromhex(k)) + "=" + quote_plus(bytes.fromhex(v)) for k, v in pairs)
+
+    def q(b):
+        if raw is None:
+            return quote_plus(b)
+        return "".join(chr(x) if (x not in b"&=+% " and raw.random() < 0.5) else quote_plus(bytes([x])) for x in b)
+    return "&".join(q(bytes.fromhex(k)) + "=" + q(bytes.fromhex(v)) for k, v in pairs)
 
 
 def gen_cases(rng, tier):
@@ -237,7 +244,10 @@ def gen_cases(rng, tier):
         yield {"kind": "utf8", "val": val}
     for _ in range(500 * scale):
         pairs = _pairs(rng)
-        yield {"kind": "qsenc", "pairs": pairs, "qs": _encode_qs(pairs), "as_bytes": rng.random() < 0.5}
+        if rng.random() < 0.5:
+            yield {"kind": "qsenc", "pairs": pairs, "qs": _encode_qs(pairs), "as_bytes": rng.random() < 0.5}
+        else:
+            yield {"kind": "qsenc", "pairs": pairs, "qs": _encode_qs(pairs, rng), "as_bytes": rng.random() < 0.7, "raw": True}
     for _ in range(600 * scale):
         qs = _text(rng, QS_PIECES, 0, 9)
         if rng.random() < 0.4:
@@ -580,7 +590,7 @@ def spec_violation(case, impl, replies):
                 return "utf8(bytes) not passed through"
             valid = _as_text(b)
             if valid is None:
-                return None if impl["tounicode"] == "UnicodeDecodeError" else "to_unicode accepted invalid UTF-8"
+                return None     # the property speaks about valid data only; invalid input is covered by the correspondence
             if impl["tounicode"] != valid or impl.get("back_from_unicode") != b:
                 return "utf8(to_unicode(b)) != b"
             return None
@@ -588,7 +598,7 @@ def spec_violation(case, impl, replies):
             return "type %s not rejected: utf8->%r to_unicode->%r" % (t, impl["utf8"], impl["tounicode"])
         return None
     if k == "qsenc":
-        if _val(replies[0], True) != case["qs"]:
+        if not case.get("raw") and _val(replies[0], True) != case["qs"]:
             raise AssertionError("harness encoder and Spec.encodeQs disagree: %r" % (case["qs"],))
         want = _mdict
         if impl["keep"] != want(replies[1]):
@@ -665,7 +675,7 @@ def shrink(case):
         p = case["pairs"]
         for i in range(len(p)):
             q = p[:i] + p[i + 1:]
-            yield {**case, "pairs": q, "qs": _encode_qs(q)}
+            yield {**case, "pairs": q, "qs": _encode_qs(q), "raw": False}
     if k == "json":
         v = case["value"]
         if isinstance(v, list):
